@@ -77,7 +77,8 @@ class Walker:
         self.cfg = gen.cfg_of(fx)
         self.rnd = rnd
         self.profile = dict(plans=True, utility=True, payload=self.cfg["payload"] != "void", hooks=2,
-                            overflow=True, cancel=True, react=True, serial=True, fills=True, quiet=0.15)
+                            overflow=True, cancel=True, react=True, serial=True, fills=True, quiet=0.15,
+                            logger=bool({"LOG_INTERFACE", "VERBOSE_DEBUG_LOG"} & set(self.cfg["features"])))
         self.stash = []          # saved buffers (lists of bytes), shared by all episodes of this walker
         self.profile.update(fx.get("profile", {}))
         self.profile.update(profile or {})
@@ -192,6 +193,8 @@ class Walker:
                 s = rnd.choice(self.users)
             if s in self.cfg["inj"] and rnd.random() < 0.3:
                 me = "i_" + me
+            if str(s) in self.cfg["overrides"] and me not in self.cfg["overrides"][str(s)]:
+                continue        # the state does not define this method: nothing to hook
             base = me[2:] if me.startswith("i_") else me
             nops = rnd.choice([1, 1, 1, 2])
             for _ in range(nops):
@@ -246,7 +249,7 @@ class Walker:
         pre = [] if manual else self.rets() + self.hooks("enter", [], 0, first_activation=True)
         if self.profile["fills"]:
             pre = ["fill %d" % rnd.choice([0, 255, 165, 1])] + pre
-        rec = call(pre, "new")
+        rec = call(pre, "new 1" if self.profile["logger"] and rnd.random() < 0.6 else "new")
         if rec is None:
             return None
         while n < steps:
@@ -266,6 +269,11 @@ class Walker:
                 room = qlen < fl.cc or self.profile["overflow"]
                 if self.profile["plans"] and rnd.random() < self.profile.get("planheavy", 0.0):
                     c = 0.90        # a plan edit from outside
+                if self.profile["logger"] and rnd.random() < 0.04:
+                    rec = call([], "logger %d" % (0 if post.get("lg") else 1))
+                    if rec is None:
+                        return None
+                    continue
                 if self.profile["serial"] and c < 0.05:
                     rec = call([], "save")
                     if rec and rec["buf"] not in self.stash:
@@ -446,7 +454,7 @@ def replay_prefix(trace_file, l):
                 break
             mark = len(out)
             continue
-        if ln == "new":
+        if ln == "new" or ln.startswith("new "):
             start = mark            # script lines sent ahead of `new` belong to it
         out.append(ln)
     return out[start:]
